@@ -544,3 +544,65 @@ func TestBundleID(t *testing.T) {
 		})
 	})
 }
+
+// TestCommandFlags: the flag-driven entry point of `sign-bundle
+// integrity-block -i IN -o OUT`, with an output path that does not exist yet,
+// or already holds an older (shorter or longer) file.
+func TestCommandFlags(t *testing.T) {
+	rapid.Check(t, func(t *rapid.T) {
+		core.Run(t, "ib/command-flags", func(c *core.Ctx) {
+			data, kind := bundleFile(c)
+			h := newHSM(c, "hsm", false)
+			in, err := os.CreateTemp(".", "fin-*")
+			if err != nil {
+				panic(err)
+			}
+			in.Write(data)
+			in.Close()
+			defer os.Remove(in.Name())
+			outName := in.Name() + ".out"
+			defer os.Remove(outName)
+			prior := c.PickStr("out.prior", "absent", "shorter", "longer", "much-longer")
+			switch prior {
+			case "shorter":
+				os.WriteFile(outName, c.Bytes("out.old", 1, 40), 0644)
+			case "longer":
+				os.WriteFile(outName, c.BytesN("out.old", len(data)+c.Int("out.extra", 200, 400)), 0644)
+			case "much-longer":
+				os.WriteFile(outName, c.BytesN("out.old", len(data)+5000), 0644)
+			}
+			var serr error
+			pi := c.Guard("SignWithIntegrityBlockWithCmdFlags", func() {
+				captureStdout(func() { serr = signbundlecmd.VerifSignWithFlags(in.Name(), outName, h) })
+			})
+			if pi != nil {
+				if c.Oracle("C10", "C07") {
+					c.CheckTotal("SignWithIntegrityBlockWithCmdFlags", len(data), pi, 0)
+				}
+				return
+			}
+			c.Event("file kind=%s prior output=%s -> err=%v", kind, prior, serr != nil)
+			c.Sig("%s/%s", kind, prior)
+			if !c.Oracle("C07") {
+				return
+			}
+			if kind != "own-length" {
+				if serr == nil {
+					c.Violation("no-error", "SignWithIntegrityBlockWithCmdFlags", "file kind %s: signing reported success", kind)
+				}
+				c.Outcome("nt:refused")
+				return
+			}
+			if serr != nil {
+				c.Violation("sign-error", "SignWithIntegrityBlockWithCmdFlags", "honest signing failed: %v", serr)
+			}
+			written, _ := os.ReadFile(outName)
+			if !bytes.HasSuffix(written, data) {
+				c.Violation("bundle-bytes-touched", "SignWithIntegrityBlockWithCmdFlags", "the output (%d bytes, prior output %s) does not end with the untouched original file bytes", len(written), prior)
+			}
+			sum := sha512.Sum512(data)
+			checkBlock(c, written[:len(written)-len(data)], sum[:], 1, "SignWithIntegrityBlockWithCmdFlags")
+			c.Outcome("nt:signed")
+		})
+	})
+}
